@@ -70,6 +70,10 @@ func init() {
 		Components: []string{"real: packetio.Buffer, deadline.Deadline", "oracle: FIFO reference model; porcupine v1.3.0 for concurrent histories"}, Assumptions: stdAssume, Rule: bufRule})
 	def("C07", &propCfg{Dir: "c06", Pkgs: []string{"packetio", "deadline"},
 		Components: []string{"real: packetio.Buffer, deadline.Deadline", "oracle: FIFO reference model with limits; porcupine v1.3.0 for concurrent histories"}, Assumptions: stdAssume, Rule: bufRule})
+	def("C18", &propCfg{Pkgs: []string{"test", "dpipe", "deadline"},
+		Components: []string{"real: test.Bridge with its two endpoints (readers are concurrent workers; Push/Process sleeps run on the fake clock), dpipe.Pipe", "oracle: reference model of the script per direction (queue, pending drop count, pending reorder stack, filter)"},
+		Assumptions: append([]string{"drop and reorder requests pending at the same time on one direction are not generated (their relative priority is not stated)", "Drop with an offset beyond the queue is not generated"}, stdAssume...),
+		Rule: "script histories: writes in both directions interleaved with DropNextNWrites, ReorderNextNWrites (n=0,1,2.., repeated), Drop, Reorder, Filter, Process (Bridge) or writes/reads/close on both ends (dpipe), message sizes 0..9000, reader slices shorter and longer than the messages. Non-trivial: >=2 writes and >=4 operations; distinct = hash of the script"})
 	def("C09", &propCfg{
 		Components:  []string{"real: deadline.Deadline over simrt.Timer (AfterFunc callbacks are workers parked at their entry, so a dispatched-but-unrun callback can be overtaken by further Set calls)", "stub: none"},
 		Assumptions: stdAssume,
